@@ -144,7 +144,12 @@ func TestC13_ShareAndConnectable(t *testing.T) {
 				for p := 0; p < 3; p++ {
 					run(func() { sub := shared.Subscribe(quietObserver()); sub.Unsubscribe() })
 				}
-				run(func() { shared.Subscribe(quietObserver()) })
+				run(func() {
+					sub := shared.Subscribe(quietObserver())
+					if rep%2 == 1 {
+						sub.Unsubscribe() // every subscriber leaves: the count reaches zero while the source may be ending
+					}
+				})
 				run(func() {
 					for i := 0; i < 4; i++ {
 						man.Emit(rt.N(i))
@@ -198,4 +203,27 @@ func TestC13_SubscriptionsAndSafeObservables(t *testing.T) {
 	}
 	rt.Case("race-subscriber", true, "race:subscriber", func() any { return map[string]any{"scenario": "Add | Next | Next | Unsubscribe | terminal | Wait on one subscriber", "reps": reps} })
 	rt.Case("race-subscriber-2", true, "race:subscriber", func() any { return fmt.Sprintf("%d repetitions", reps) })
+}
+
+// Operators that notify from a goroutine of their own (timers, tickers, context
+// watchers, hand-off consumers) against one producer.
+func TestC13_InternalGoroutines(t *testing.T) {
+	reps := 25
+	if rt.Thorough() {
+		reps = 300
+	}
+	idx := 0
+	for _, op := range c02InternalOps {
+		for _, p := range []struct{ d, gap, dwell, cancel int }{{60, 50, 80, -1}, {150, 0, 30, 100}, {50, 120, 0, 40}} {
+			for _, end := range []byte{'C', 'E'} {
+				idx++
+				if !rt.Mine(idx) {
+					continue
+				}
+				c := c02Internal{Op: op, DUs: p.d, N: 5, GapUs: p.gap, DwellUs: p.dwell, CancelUs: p.cancel, End: end, Reps: reps}
+				c02InternalRun(t, c, true)
+				rt.Case(caseKey("race-internal", op, p.d, p.gap, p.dwell, p.cancel, end), true, "race:internal:"+op, func() any { return c })
+			}
+		}
+	}
 }
